@@ -86,7 +86,7 @@ def uid(n):
     return f'_{s}_{c}_{r}'
 
 
-def observe(deps, entry, salt, via_file=False, scratch=None):
+def observe(deps, entry, salt, via_file=False, scratch=None, evaluate=True):
     """Translate from the entry; returns event dict {outcome, members, values, whole}"""
     sheets = build(deps, salt)
     ev = {}
@@ -119,18 +119,25 @@ def observe(deps, entry, salt, via_file=False, scratch=None):
         ev['outcome'] = 'syntax'
         return ev
     vals = {}
+    ev['values'] = vals
+    if not evaluate:
+        # the slice is cyclic by the specification: a class that was produced all the same is already the violation; evaluating a
+        # cyclic class may not come back (an IFERROR around the loop swallows every RecursionError and tries again)
+        return ev
     ex = repo.fresh_executor(klass)
     for n in ev['members']:
         s, c, r = POS[n]
         try:
-            vals[n] = absval.to_spec(ex.get_cell(Cell(s, c, r)).value)
+            vals[n] = absval.to_spec(repo.read_cell(ex, Cell(s, c, r), 10))
+        except repo.CaseTimeout:
+            vals[n] = {'k': 'other', 't': 'evaluation does not come back (10 s)'}
         except Exception as e:
             vals[n] = {'k': 'err', 'e': 'ANY', 'exc': type(e).__name__}
     ev['values'] = vals
     return ev
 
 
-def whole_values(deps, salt):
+def whole_values(deps, salt, evaluate=True):
     sheets = build(deps, salt)
     try:
         text, _ = repo.with_timeout(60, repo.translate_file, repo.mem_excel(sheets))
@@ -140,12 +147,16 @@ def whole_values(deps, salt):
             raise
         o = repo.outcome_of_exception(e)
         return o['o'] if o['o'] != 'foreign' else 'foreign:' + o['t']
+    if not evaluate:
+        return {}
     ex = repo.fresh_executor(klass)
     vals = {}
     for n in deps:
         s, c, r = POS[n]
         try:
-            vals[n] = absval.to_spec(ex.get_cell(Cell(s, c, r)).value)
+            vals[n] = absval.to_spec(repo.read_cell(ex, Cell(s, c, r), 10))
+        except repo.CaseTimeout:
+            vals[n] = {'k': 'other', 't': 'evaluation does not come back (10 s)'}
         except Exception as e:
             vals[n] = {'k': 'err', 'e': 'ANY', 'exc': type(e).__name__}
     return vals
@@ -154,7 +165,7 @@ def whole_values(deps, salt):
 def judge_graph(rec, salt, via_file, scratch):
     deps = {i + 1: d for i, d in enumerate(rec['deps'])}
     entry = rec['entry']
-    ev = observe(deps, entry, salt, via_file, scratch)
+    ev = observe(deps, entry, salt, via_file, scratch, evaluate=not rec['cyclic'])
     if rec['cyclic']:
         if ev['outcome'] != 'lib':
             return False, f"cyclic slice: outcome {ev['outcome']}, expected the library's parser exception", ev
@@ -173,7 +184,7 @@ def judge_graph(rec, salt, via_file, scratch):
             if not absval.same(ev['values'][n], whole[n]) and not (ev['values'][n].get('k') == 'err' and whole[n].get('k') == 'err'):
                 return False, f"node {n}: slice value {absval.show(ev['values'][n])} differs from whole-workbook value {absval.show(whole[n])}", ev
     else:
-        whole = whole_values(deps, salt)
+        whole = whole_values(deps, salt, evaluate=False)
         if whole != 'lib':
             return False, f'whole-workbook translation of a cyclic workbook: outcome {whole if isinstance(whole, str) else "ok"}, expected the parser exception', ev
     return True, '', ev
@@ -322,7 +333,7 @@ def _tjob(args):
     entry = rng.randint(1, n)
     salt = rng.randint(0, 10)
     try:
-        ev = observe({i + 1: d for i, d in enumerate(deps)}, entry, salt, rng.random() < 0.03, _SCRATCH)
+        ev = observe({i + 1: d for i, d in enumerate(deps)}, entry, salt, rng.random() < 0.03, _SCRATCH, evaluate=False)
     except Exception as e:
         return {'harness_error': f'{type(e).__name__}: {e}'}
     return {'deps': deps, 'entry': entry, 'salt': salt, 'outcome': ev['outcome'], 'members': ev['members']}
